@@ -46,7 +46,7 @@ def run(ctx, model_ok):
                             "check_format_pixel_agg on every name of dir(numpy) + the later axis= use in getB, validate_field_func / field_func setter and constructor on generated "
                             "functions (argument names, result kinds for B and H, raising), _validate_mode_arg + its effect on an open mesh, in_out on a Tetrahedron and the "
                             "TriangularMesh of the same points, sumup / squeeze truth values, style argument (setter, constructor with / without style_* keywords, first access), "
-                            "sources constructed without dimension / excitation then getB / getH / magpy.getB; distinct = (command, result, input) triples")
+                            "sources constructed without dimension / excitation then getB / getH / magpy.getB, 18 kinds of junk assigned to the four collection setters of a populated forest (ids of children, typed views, children_all and every parent before / after); distinct = (command, result, input) triples")
         ctx.cov["samples"] = ca.pop("samples") + ctx.cov["samples"]
     ctx.cov["not_shown"] = ["np.array(x) / np.array(arr, dtype=float) are assumed external functions (Model/Validators.lean header): non-integer floats, inf, bytes, integers beyond int64, "
                             "Fraction/Decimal (object dtype holding numbers only), objects with __array__, nestings deeper than numpy's axis limit are outside the "
@@ -68,11 +68,15 @@ def run(ctx, model_ok):
                             "observed, not recorded as findings (oracle `observed_not_recorded`, re-evaluated on every run): the foreign errors above; accepted beyond the documented format: anchor=0j, "
                             "anchor=False, start=True, angle=[], nan floats in every scalar / vector attribute; refused although arguably documented: degrees=np.True_, start=1.0; getB observers still "
                             "coerce None / numeric strings (check_format_input_observers, outside attribute assignment)",
-                            "the four BaseCollection setters (children, sources, sensors, collections) are NOT of the form validate-then-assign: they unlink the old children before the new value can be "
-                            "rejected (collection_setters_change_state_before_rejecting; `c.children = [a, 1]` raises the library's error and leaves c empty) — reported, not repaired; every other "
-                            "setter of the regenerated list is (setters_validate_then_assign_partial), under the classification of its calls stated in Model/CallArgs.lean (SetterForm: which calls can "
-                            "reject the input, which change state, which do neither — e.g. scipy / numpy conversions of already validated data, the low-magnetization warning); style.update inside "
-                            "_validate_style applies earlier keys before a later one is rejected (C20 rejected_update_applies_earlier_keys)",
+                            "a rejected assignment changes nothing, for every regenerated setter (setters_reject_without_change): 19 are validate-then-assign, the four BaseCollection setters are "
+                            "assign-under-restore since repo fix 9176cc9 (collection_setters_restore_every_write; the handler of _replace_children is analysed statement by statement: "
+                            "dropped_restore_is_flagged) — under the classification of calls stated in Model/CallArgs.lean (SetterForm: which calls can reject the input, which change state, which do "
+                            "neither — e.g. scipy / numpy conversions of already validated data, the low-magnetization warning), under C11's `add` validates before it links, and with two things the "
+                            "analysis does not examine: the VALUE a per-element restore assigns (`child._parent = self`: right because removed children had this parent, C11 invariant) and that "
+                            "`self._children = [...]` rebinds (an in-place edit would be a call the analysis does not know and is flagged); the callargs stream compares the whole forest before / after "
+                            "72 junk assignments per run. NOT covered by the form: the KIND of error (`c.children = 5` / None / object(): foreign TypeError from `self.add(*5)`, state kept) and "
+                            "silent acceptance (`c.collections = 5` or `[1, 'abc']` is accepted and drops every sub-collection; `c.sensors = [a_source]` drops the sensors; `c.sources = [c]` is "
+                            "accepted): observed, reported",
                             "constructor path = setter path: by theorem for the regenerated table of every __init__ (ctor_args_keep_their_names, ctor_args_reach_their_setters, "
                             "ctor_position_orientation_use_setter_validators); the padding logic of _init_position_orientation differs from the two setters' (subject of C09); "
                             "TriangularMesh vertices / faces have no setter (_input_check, foreign IndexError for bad face indices: observed)",
